@@ -51,10 +51,17 @@ func BigDecimalFloatToBigInt(value *apd.Decimal, maxBase10Exponent int) (*big.In
 	}
 	exp := big.NewInt(int64(value.Exponent))
 	exp.Exp(common.BigInt10, exp, nil)
-	return exp.Mul(exp, &value.Coeff), nil
+	result := exp.Mul(exp, &value.Coeff)
+	if value.Negative {
+		result.Neg(result)
+	}
+	return result, nil
 }
 
 func BigDecimalFloatToUint(value *apd.Decimal) (uint64, error) {
+	if value.Negative && !value.IsZero() {
+		return 0, fmt.Errorf("%v cannot fit into type uint64", value)
+	}
 	if i, err := value.Int64(); err == nil {
 		return uint64(i), nil
 	}
